@@ -214,7 +214,7 @@ func cmdCheck(args []string) int {
 	sort.SliceStable(all, func(i, j int) bool { return all[i].Key() < all[j].Key() })
 	os.RemoveAll(filepath.Join(evidenceDir(), "replay", *prop))
 	discharged, violations := 0, 0
-	var knownMatched []string
+	knownMatched := []string{}
 	var samples []any
 	var bad []Obligation
 	for _, o := range all {
@@ -237,7 +237,7 @@ func cmdCheck(args []string) int {
 		fmt.Printf("%s %s [%s]\n    %s\n", strings.ToUpper(o.Verdict), o.Key(), o.Pos, o.Detail)
 		fmt.Printf("VIOLATION property=%s replay=%s\n", *prop, rp)
 	}
-	var stale []string
+	stale := []string{}
 	for k := range knownByKey {
 		stale = append(stale, k)
 	}
